@@ -215,6 +215,7 @@ def generate(src):
             if m_ and G(st).get('__i') is not None: return k(st, PyBool(over(G(st)['__i']) if m_.group(2) == '!=' else Not(over(G(st)['__i']))))
             if u == 'message.task_name not in self.known_tasks': return k(st, PyBool(fresh('unknown_task', BoolSort())))
             if len(e.ops) == 1 and isinstance(e.ops[0], (ast.In, ast.NotIn)) and ast.unparse(e.comparators[0]).startswith('self.'):
+                approx(st, "membership test " + u + " in receiver-held bookkeeping this unit has no contract for (unconstrained boolean)")
                 return k(st, PyBool(fresh('membership_in_' + ast.unparse(e.comparators[0]).replace('.', '_'), BoolSort())))      # membership in receiver-held bookkeeping: unconstrained
             return super().ev_Compare(e, st, k, K)
         def ev_Dict(self, e, st, k, K):
